@@ -288,6 +288,9 @@ func berJob(t *testing.T, raw json.RawMessage) (any, error) {
 				b := &builder{c: c, maxDepth: 5, errCases: true}
 				cur = b.build(ut.T, p, "", 0)
 			}
+			// what a call returned belongs to the caller: the next call must not change it (nor what was decoded from it)
+			var prevRef, prevCopy []byte
+			var prevDesc string
 			Enumerate(a.K, build, func(c *Chooser) bool {
 				n++
 				if a.Cap > 0 && n > a.Cap {
@@ -297,6 +300,13 @@ func berJob(t *testing.T, raw json.RawMessage) (any, error) {
 				st.Values++
 				cs := &berCase{typ: ut, param: param, val: cur, devs: c.Deviations()}
 				cs.got, cs.gotErr, cs.gotPan = marshalSafe(cur, param)
+				if prevRef != nil && !bytes.Equal(prevRef, prevCopy) {
+					st.find("encoding-changed-by-a-later-call/"+typeClass(ut.Name), fmt.Sprintf("%s: the octets returned for it were %s and read %s after the next value had been marshalled", prevDesc, hexHead(prevCopy, 24), hexHead(prevRef, 24)))
+				}
+				prevRef, prevCopy, prevDesc = nil, nil, ""
+				if cs.gotErr == nil && cs.gotPan == "" && len(cs.got) > 0 {
+					prevRef, prevCopy, prevDesc = cs.got, append([]byte(nil), cs.got...), describeCase(cs)
+				}
 				checkEncode(st, cs, p, seen)
 				if a.Check == "C05" && cs.gotPan == "" && cs.gotErr == nil {
 					checkRoundTrip(st, cs)
